@@ -283,3 +283,12 @@ Require Copia.Proofs.TieFingerprint.
 Theorem C06_fingerprint_is_translation_of_source : TieFingerprint.fingerprint_is_translation.
 Proof. exact TieFingerprint.fingerprint_is_translation_holds. Qed.
 Print Assumptions C06_fingerprint_is_translation_of_source.
+
+(** The key under which a pair's common state is recorded is the translation of archive.rs `root_pair_hash` as the source
+    has it now - the hexadecimal BLAKE3 of `canonical(A) NUL canonical(B)` - and, where BLAKE3 does not collide, two
+    pairs have the same key exactly when their canonical roots are the same in the same order (Gen/PairKeyGen.v,
+    Proofs/TiePairKey.v). *)
+Require Copia.Proofs.TiePairKey.
+Theorem C06_pair_key_is_translation_of_source : TiePairKey.pair_key_is_translation.
+Proof. exact TiePairKey.pair_key_is_translation_holds. Qed.
+Print Assumptions C06_pair_key_is_translation_of_source.
